@@ -373,6 +373,7 @@ func (c *conn) rerunSubscriptionsImmediately() {
 }
 
 func (c *conn) closeSubscription(id string) {
+	verifYield("closeSubscription.enter")
 	c.mu.Lock()
 	defer c.mu.Unlock()
 
